@@ -25,6 +25,8 @@ pub enum Source {
     Tern(usize, u64, u64),
     /// SP: large sparse ADFs (70 / 130 / 270 statements, 7 open ones at the highest positions), `count` instances
     Sparse(u64, u64),
+    /// ladders with exactly 63 ... 257 statements (mid::ladder), both variants
+    Ladder,
     /// labels that spell formulas: statements a, b and X, where the quoted label X is a rendering of a formula f(a,b) -
     /// in the input syntax or as the library itself prints the parsed condition; f is the whole condition of a, the
     /// atom X the whole condition of b (in both fact orders), neg(a) the condition of X
@@ -130,6 +132,7 @@ impl Source {
                 }
             }
             Source::Sparse(_, count) => format!("SP: {} large sparse ADFs (70/130/270 statements, open ring at positions beyond 63 / 255)", count),
+            Source::Ladder => "ladders with exactly 63-66 / 127-129 / 255-257 statements (decided / with an open pair at the two highest positions)".to_string(),
             Source::Spelled => "labels that spell a formula of the same ADF (input syntax and the library's own rendering)".to_string(),
             Source::Literal3 => "Lit(3): three statements x 15 literally written short conditions".to_string(),
             Source::Ring(n, first, step) => {
@@ -147,6 +150,7 @@ impl Source {
             Source::Formulas(..) => 2,
             Source::Ring(n, _, _) | Source::Tern(n, _, _) => *n,
             Source::Sparse(..) => 270,
+            Source::Ladder => 257,
             Source::Spelled | Source::Literal3 => 3,
         }
     }
@@ -156,6 +160,7 @@ impl Source {
             Source::FamAllWriters(f) => f.size() * (WRITERS as u64).pow(f.n as u32),
             Source::Formulas(_, l) => l.len() as u64,
             Source::Sparse(_, count) => *count,
+            Source::Ladder => 2 * crate::mid::LADDER_SIZES.len() as u64,
             Source::Spelled => spelled_size(),
             Source::Literal3 => (LITERALS as u64).pow(3),
             Source::Tern(n, first, step) => {
@@ -238,6 +243,11 @@ impl Source {
                 let text = l.text(None, ("\n", "", ""));
                 Case { tts: vec![], text, fms: l.conds.clone(), sorting: ((idx / 2) % 3) as usize, labels: l.labels.clone(), formulas: Some(std::sync::Arc::new(l)) }
             }
+            Source::Ladder => {
+                let l = crate::mid::ladder(crate::mid::LADDER_SIZES[(k / 2) as usize], k % 2);
+                let text = l.text(None, ("\n", "", ""));
+                Case { tts: vec![], text, fms: l.conds.clone(), sorting: (k % 3) as usize, labels: l.labels.clone(), formulas: Some(std::sync::Arc::new(l)) }
+            }
             Source::Ring(n, first, step) => {
                 let idx = first + step * k;
                 let l = crate::mid::ring(*n, idx);
@@ -288,6 +298,9 @@ impl Source {
         }
         if let Source::Sparse(first, _) = self {
             v["sparse"] = json!(first + 7 * k);
+        }
+        if let Source::Ladder = self {
+            v["ladder"] = json!({"n": crate::mid::LADDER_SIZES[(k / 2) as usize], "variant": k % 2});
         }
         v
     }
@@ -340,7 +353,9 @@ pub fn standard_sources(run: &Run, with_formulas: bool) -> Vec<Source> {
         v.push(Source::Ring(7, run.seed % 512, 512));
         v.push(Source::Ring(8, run.seed % 16384, 16384));
         v.push(Source::Sparse(run.seed * 1000, 24));
+        v.push(Source::Ladder);
     } else {
+        v.push(Source::Ladder);
         v.push(Source::Sparse(run.seed * 1000, 480));
         v.push(Source::Tern(4, 0, 1));
         v.push(Source::Tern(5, 0, 1));
